@@ -136,6 +136,9 @@ class Eval:
         self.opaque = set(opaque)  # local callee keys that are NOT inlined
         self.max_inline = max_inline
         self.ctx = Ctx()
+        self.ambient = frozenset()   # presence conditions under which the code being inlined runs
+        self.site_conds = {}         # call site -> [ambient condition sets]
+        self.site_terms = {}         # call site -> [call terms]
 
     # ------------------------------------------------------------------ #
     def fresh_ctx(self):
@@ -191,6 +194,11 @@ class Eval:
             return ("mutated", self.project1(base, e, env), site, path[1:] if path and path[0] == e else ())
         if k == "field":
             name = e[1]
+            if tag == "bin" and t[1].endswith("WithOverflow"):
+                base = t[1][: -len("WithOverflow")]
+                if name == "0":
+                    return ("bin", base, t[2], t[3])
+                return ("overflow", base, t[2], t[3])
             if tag == "agg":
                 for f, v in t[3]:
                     if f == name:
@@ -212,6 +220,9 @@ class Eval:
             return ("field", t, name)
         if k == "as":
             variant = e[1]
+            if tag == "from_residual":
+                # the early-return value of `?`: always the failure variant
+                return ("unreachable",) if variant in ("Ok", "Some", "Continue") else t
             if tag == "agg":
                 if t[2] == variant:
                     return t
@@ -253,7 +264,7 @@ class Eval:
                 for a in t[1]:
                     if a[0] == "agg" and a[2] in ("Err", "None"):
                         continue
-                    if a[0] == "none":
+                    if a[0] in ("none", "from_residual", "unreachable"):
                         continue
                     pa = self.payload(a, "__ok__")
                     if pa not in alts:
@@ -575,7 +586,18 @@ class Eval:
         # ---- iteration ----
         if cid == "std::iter::Iterator::next":
             return ("opt", ("elem", args[0]), frozenset([("has_next", args[0])]))
-        return ("call", cid, head, tuple(args), site)
+        ct = ("call", cid, head, tuple(args), site)
+        self.site_conds.setdefault(site[:2], []).append(self.ambient)
+        self.site_terms.setdefault(site[:2], []).append(ct)
+        return ct
+
+    def apply_under(self, conds, f, args, site, env):
+        saved = self.ambient
+        self.ambient = saved | frozenset(conds)
+        try:
+            return self.apply(f, args, site, env)
+        finally:
+            self.ambient = saved
 
     def as_opt(self, t):
         """view a term of Option/Result type as ('opt', payload, conds) if possible"""
@@ -617,10 +639,10 @@ class Eval:
                 return None
             _, p, c = o
             if m == "map":
-                r = self.apply(args[1], [p], site, env)
+                r = self.apply_under(c, args[1], [p], site, env)
                 return ("opt", r, c)
             if m == "and_then":
-                r = self.apply(args[1], [p], site, env)
+                r = self.apply_under(c, args[1], [p], site, env)
                 if r[0] == "opt":
                     return ("opt", r[1], c | r[2])
                 if r[0] == "none":
